@@ -27,7 +27,9 @@
        exactly n = size steps (n are necessary and sufficient) with a stack that never
        exceeds  max(1, max arity) * height  entries;
      - post_order_iter_total : PostOrderIter never reaches its unwrap / stack[idx] panic
-       sites, never runs out of the stated fuel and yields exactly n items.
+       sites, never runs out of the stated fuel and yields exactly n items;
+     - depth_guard_sound / forgetful_guard_unsound : the 402 depth guard bounds the real
+       nesting depth exactly when tree_height takes ALL children into account.
    The other theorems the design lists for C11 live with the builders that own the models:
    tree_total (C10, expression/mod.rs), decode_total (C04), ord_total/eq_total (C19; refuted:
    DESIGN 10-d), interp_total (C13), lift_total/policy_total (C18; refuted: DESIGN 10-e).
@@ -35,7 +37,7 @@
    inventory, which also names the runtime behaviours that are outside any model:
    native stack depth of recursive code, allocation size, run time, third-party crates.  *)
 From Coq Require Import List NArith Bool.
-From Verif Require Import Bytes RobustModel RobustProofs RobustLexProofs RobustTreeProofs RobustPostProofs.
+From Verif Require Import Bytes RobustModel RobustProofs RobustLexProofs RobustTreeProofs RobustPostProofs RobustDepthProofs.
 Import ListNotations.
 Local Open Scope N_scope.
 
@@ -119,6 +121,21 @@ Theorem post_order_iter_total_C11 : forall t : rtree,
   exists ys, post_order t = ROk ys /\ length ys = rsize t.
 Proof. exact post_order_iter_total. Qed.
 Print Assumptions post_order_iter_total_C11.
+
+(* The depth guard (from_ast / validate compare ExtData::tree_height with 402): when every
+   constructor computes 0 for a leaf and 1 + max of ALL its children (the formula the tie checks
+   against the compiled ExtData for every constructor on every run), the guard bounds the REAL
+   nesting depth (rheight counts a leaf as 1, hence 403) ... *)
+Theorem depth_guard_sound : forall t : rtree, depth_guard (lib_height t) = true -> (rheight t <= 403)%nat.
+Proof. exact depth_guard_sound_proof. Qed.
+Print Assumptions depth_guard_sound.
+
+(* ... and a formula that forgets one child position lets trees of ANY depth through (the shape
+   of seeded change C11-2: and_or without its third child) *)
+Theorem forgetful_guard_unsound : forall n : nat,
+  depth_guard (forgetful_height (chain_c n)) = true /\ rheight (chain_c n) = S n.
+Proof. exact forgetful_guard_unsound_proof. Qed.
+Print Assumptions forgetful_guard_unsound.
 
 (* non-vacuity: the hypotheses are satisfiable and the models compute *)
 Example threshold_wf_example : thr_new 20 2 [1; 2; 3] = ROk (mkThr 2 [1; 2; 3]) /\ thr_wf 20 (mkThr 2 [1; 2; 3]).
